@@ -758,6 +758,10 @@ fn sweep_values(s: T, d: T) -> Vec<V> {
             (3, -150),
             (1, -150),
             (16777217, -173),
+            // between 2^128 and 2^129: overflows f32 although the exponent is only one too large
+            (3, 127),
+            (16777215, 105),
+            (16777217, 105),
         ] {
             out.push(V::F64(m as f64 * 2f64.powi(e)));
             out.push(V::F64(-(m as f64) * 2f64.powi(e)));
